@@ -17,6 +17,7 @@ import (
 
 	"github.com/bbockelm/cedar/message"
 	"github.com/bbockelm/cedar/security"
+	"github.com/bbockelm/cedar/server"
 	"github.com/bbockelm/cedar/stream"
 
 	"verifharness/kit"
@@ -241,6 +242,12 @@ func runCase(c Case) outcome {
 			if _, err := security.NewAuthenticator(ccfg, ps).ClientHandshake(peerCtx); err != nil {
 				_ = peerConn.Close()
 			}
+		case "serveconn": // peer: handshake for the command, then reads the handler's reply
+			if _, err := security.NewAuthenticator(ccfg, ps).ClientHandshake(peerCtx); err != nil {
+				_ = peerConn.Close()
+			} else {
+				_, _ = ps.ReceiveCompleteMessage(peerCtx)
+			}
 		case "sender": // peer receives and acknowledges
 			m := message.NewMessageFromStream(ps)
 			if b, err := m.GetBytes(peerCtx, payloadSize); err == nil && len(b) == payloadSize {
@@ -316,6 +323,16 @@ func runCase(c Case) outcome {
 			es.SetConnection(econn)
 		}
 		switch c.Role {
+		case "serveconn":
+			// the command dispatcher owns the connection it is given: it reads the command, runs the handshake and
+			// the handler, and whatever way it ends - also on a context that is already dead - the connection is closed
+			srv := server.New(scfg)
+			srv.Handle(ccfg.Command, func(hctx context.Context, hc *server.Conn) error {
+				m := message.NewMessageForStream(hc.Stream)
+				_ = m.PutString(hctx, "handler-reply")
+				return m.FinishMessage(hctx)
+			})
+			o.err = srv.ServeConn(ctx, econn)
 		case "client":
 			neg, err := security.NewAuthenticator(ccfg, es).ClientHandshake(ctx)
 			o.err = err
@@ -529,6 +546,9 @@ func judge(c Case, o outcome, base outcome) string {
 		if plain(c.Role) && !errors.Is(o.err, context.Canceled) {
 			return fmt.Sprintf("plain stream operation returned %q, not context.Canceled", o.err)
 		}
+		if c.Role == "serveconn" && !o.closed {
+			return "ServeConn returned on an already cancelled context and left the connection it owns open"
+		}
 	case "after", "background", "background-dribble", "cancellable-dribble":
 		if !o.returned {
 			return "the call did not return although nothing stalled"
@@ -557,6 +577,7 @@ func TestC19Stalls(t *testing.T) {
 	for _, s := range shapes {
 		pairs = append(pairs, sr{s, "client"}, sr{s, "server"})
 	}
+	pairs = append(pairs, sr{"noauth", "serveconn"}, sr{"claimtobe", "serveconn"})
 	pairs = append(pairs, sr{"plain", "sender"}, sr{"plain", "receiver"}, sr{"plain", "filesender"}, sr{"plain", "filereceiver"}, sr{"plain", "secretsender"}, sr{"plain", "bytesreader"})
 	for _, p := range pairs {
 		base := runCase(Case{Shape: p.shape, Role: p.role, Variant: "baseline"})
